@@ -43,7 +43,11 @@ _psSodium_crypto_sign_ed25519_verify_detached(const unsigned char *sig,
         return -1;
     }
 #else
-    if (sig[63] & 224) {
+    /* RFC 8032 5.1.7: S is decoded as an integer in the range 0 <= S < L,
+       otherwise the signature is invalid. Checking the three top bits only
+       lets S + L through, a second valid-looking signature anybody can
+       derive from a genuine one. */
+    if (psSodium_sc25519_is_canonical(sig + 32) == 0) {
         return -1;
     }
 #endif
